@@ -213,7 +213,7 @@ def monC14 : ObsMonitor Obs C14St where
       else some ms
     -- the exit is known to the container once its final section reports it (backoff call, first exit callback)
     | .bo .dur => some { ms with lastExit := none, needCause := false,
-                                 retryDue := ms.lastCtx != 0 && !ms.croots.contains ms.lastCtx }
+                                 retryDue := ms.pendMut.isEmpty && ms.lastCtx != 0 && !ms.croots.contains ms.lastCtx }
     | .bo .stop => some { ms with lastExit := none, needCause := ms.needCause || (match ms.lastExit with
                                                                                    | some (some _) => true
                                                                                    | _ => false) }
